@@ -227,6 +227,186 @@ theorem prioSpec_eq (m : Mat) :
 
 end prio
 
+/-! ### the selection methods ('first', 'last', 'min', 'max') and the final ranking step of 'rank' -/
+
+section selection
+
+/-- 'first': 0 for a column of zeros … -/
+theorem firstNZ_zeros : ∀ c : List Int, (∀ x ∈ c, x = 0) → firstNZ c = 0
+  | [], _ => rfl
+  | x :: c, h => by
+      have hx : x = 0 := h x (by simp)
+      have ih := firstNZ_zeros c (fun y hy => h y (by simp [hy]))
+      subst hx
+      exact ih
+
+/-- … otherwise the first non-zero entry -/
+theorem firstNZ_spec : ∀ (pre : List Int) (x : Int) (post : List Int), (∀ y ∈ pre, y = 0) → x ≠ 0 →
+    firstNZ (pre ++ x :: post) = x
+  | [], x, post, _, hx => by simp [firstNZ, List.find?_cons, hx]
+  | y :: pre, x, post, hp, hx => by
+      have hy : y = 0 := hp y (by simp)
+      have ih := firstNZ_spec pre x post (fun z hz => hp z (by simp [hz])) hx
+      subst hy
+      exact ih
+
+def lastGo (k : Nat) (c : List Int) (acc : Option (Nat × Int)) : Option (Nat × Int) :=
+  (List.zip (List.range' k c.length) c).foldl (fun acc (p : Nat × Int) => if p.2 != 0 then some (p.1, p.2) else acc) acc
+
+theorem lastGo_cons (k : Nat) (v : Int) (c : List Int) (acc) :
+    lastGo k (v :: c) acc = lastGo (k + 1) c (if v != 0 then some (k, v) else acc) := by
+  simp [lastGo, List.range'_succ]
+
+theorem lastGo_zeros : ∀ (c : List Int) (k : Nat) (acc), (∀ x ∈ c, x = 0) → lastGo k c acc = acc
+  | [], k, acc, _ => by simp [lastGo]
+  | v :: c, k, acc, h => by
+      have hv : v = 0 := h v (by simp)
+      rw [lastGo_cons, lastGo_zeros c (k + 1) _ (fun y hy => h y (by simp [hy]))]
+      simp [hv]
+
+theorem lastGo_spec : ∀ (pre : List Int) (x : Int) (post : List Int) (k : Nat) (acc), (∀ y ∈ post, y = 0) → x ≠ 0 →
+    lastGo k (pre ++ x :: post) acc = some (k + pre.length, x)
+  | [], x, post, k, acc, hp, hx => by
+      rw [List.nil_append, lastGo_cons, lastGo_zeros post (k + 1) _ hp]
+      simp [hx]
+  | y :: pre, x, post, k, acc, hp, hx => by
+      rw [List.cons_append, lastGo_cons, lastGo_spec pre x post (k + 1) _ hp hx]
+      simp only [List.length_cons]
+      congr 2; omega
+
+theorem lastNZ_eq (c : List Int) : lastNZ c = lastGo 0 c none := by
+  simp [lastNZ, lastGo, List.range_eq_range']
+
+/-- 'last': none for a column of zeros, otherwise the last non-zero entry (with its row) -/
+theorem lastNZ_zeros (c : List Int) (h : ∀ x ∈ c, x = 0) : lastNZ c = none := by
+  rw [lastNZ_eq]; exact lastGo_zeros c 0 none h
+
+theorem lastNZ_spec (pre : List Int) (x : Int) (post : List Int) (hp : ∀ y ∈ post, y = 0) (hx : x ≠ 0) :
+    lastNZ (pre ++ x :: post) = some (pre.length, x) := by
+  rw [lastNZ_eq, lastGo_spec pre x post 0 none hp hx]; simp
+
+theorem foldl_min_spec : ∀ (xs : List Int) (a : Int),
+    (xs.foldl min a = a ∨ xs.foldl min a ∈ xs) ∧ xs.foldl min a ≤ a ∧ ∀ y ∈ xs, xs.foldl min a ≤ y
+  | [], a => by simp
+  | x :: xs, a => by
+      have ⟨h1, h2, h3⟩ := foldl_min_spec xs (min a x)
+      simp only [List.foldl_cons]
+      refine ⟨?_, by omega, ?_⟩
+      · rcases h1 with h | h
+        · by_cases hax : a ≤ x
+          · left; rw [h]; omega
+          · right; rw [h]; simp; omega
+        · right; simp [h]
+      · intro y hy
+        rcases List.mem_cons.1 hy with rfl | hy
+        · omega
+        · exact h3 y hy
+
+/-- 'min': 0 for a column of zeros, otherwise the smallest non-zero entry -/
+theorem minNZ_spec (c : List Int) :
+    ((∀ x ∈ c, x = 0) → minNZ c = 0) ∧
+    ((∃ x ∈ c, x ≠ 0) → (minNZ c ∈ c ∧ minNZ c ≠ 0) ∧ ∀ y ∈ c, y ≠ 0 → minNZ c ≤ y) := by
+  unfold minNZ
+  constructor
+  · intro h
+    have : c.filter (· != 0) = [] := by
+      apply List.filter_eq_nil_iff.2
+      intro x hx; simp [h x hx]
+    rw [this]
+  · intro ⟨x, hx, hx0⟩
+    cases hf : c.filter (· != 0) with
+    | nil =>
+        have := List.filter_eq_nil_iff.1 hf x hx
+        simp at this; exact absurd this hx0
+    | cons a as =>
+        have ⟨h1, h2, h3⟩ := foldl_min_spec as a
+        have hmem : ∀ z, z ∈ a :: as ↔ z ∈ c ∧ z ≠ 0 := by
+          intro z; rw [← hf]; simp
+        simp only
+        refine ⟨?_, ?_⟩
+        · have : as.foldl min a ∈ a :: as := by
+            rcases h1 with h | h
+            · rw [h]; simp
+            · simp [h]
+          exact (hmem _).1 this
+        · intro y hy hy0
+          have : y ∈ a :: as := (hmem y).2 ⟨hy, hy0⟩
+          rcases List.mem_cons.1 this with rfl | h
+          · exact h2
+          · exact h3 y h
+
+theorem foldl_max_spec : ∀ (xs : List Int) (a : Int),
+    (xs.foldl max a = a ∨ xs.foldl max a ∈ xs) ∧ a ≤ xs.foldl max a ∧ ∀ y ∈ xs, y ≤ xs.foldl max a
+  | [], a => by simp
+  | x :: xs, a => by
+      have ⟨h1, h2, h3⟩ := foldl_max_spec xs (max a x)
+      simp only [List.foldl_cons]
+      refine ⟨?_, by omega, ?_⟩
+      · rcases h1 with h | h
+        · by_cases hax : x ≤ a
+          · left; rw [h]; omega
+          · right; rw [h]; simp; omega
+        · right; simp [h]
+      · intro y hy
+        rcases List.mem_cons.1 hy with rfl | hy
+        · omega
+        · exact h3 y hy
+
+/-- 'max': the largest entry of a non-empty column -/
+theorem lmax_spec (x : Int) (xs : List Int) : lmax (x :: xs) ∈ x :: xs ∧ ∀ y ∈ x :: xs, y ≤ lmax (x :: xs) := by
+  have ⟨h1, h2, h3⟩ := foldl_max_spec xs x
+  have he : lmax (x :: xs) = xs.foldl max x := by simp [lmax]
+  rw [he]
+  refine ⟨?_, ?_⟩
+  · rcases h1 with h | h
+    · rw [h]; simp
+    · simp [h]
+  · intro y hy
+    rcases List.mem_cons.1 hy with rfl | hy
+    · exact h2
+    · exact h3 y hy
+
+/-- the rank `ranking` gives to a value: `base` + the number of distinct smaller values -/
+def rkOf (r : List Int) (x : Int) : Int :=
+  (if r.foldl min (r.headD 0) > 0 then 1 else 0) + ((r.eraseDups.filter (· < x)).length : Int)
+
+theorem ranking_eq (a : Int) (r : List Int) : ranking (a :: r) = (a :: r).map (rkOf (a :: r)) := by
+  simp [ranking, rkOf]
+
+/-- 'rank' (final step): the ranking is order-preserving … -/
+theorem ranking_strict_mono (r : List Int) (x y : Int) (hx : x ∈ r) (h : x < y) : rkOf r x < rkOf r y := by
+  unfold rkOf
+  have := filter_length_lt (fun d : Int => decide (d < x)) (fun d => decide (d < y)) r.eraseDups
+    (by intro d hd; simp at hd ⊢; omega) ⟨x, List.mem_eraseDups.2 hx, by simpa using h, by simp⟩
+  omega
+
+/-- … gives equal values equal ranks and different values different ranks … -/
+theorem ranking_eq_iff (r : List Int) (x y : Int) (hx : x ∈ r) (hy : y ∈ r) : rkOf r x = rkOf r y ↔ x = y := by
+  constructor
+  · intro h
+    rcases Int.lt_trichotomy x y with hlt | heq | hgt
+    · have := ranking_strict_mono r x y hx hlt; omega
+    · exact heq
+    · have := ranking_strict_mono r y x hy hgt; omega
+  · intro h; rw [h]
+
+/-- … and is dense: rank − base is exactly the number of distinct smaller values (base 1 when every value is positive, else 0) -/
+theorem ranking_dense (r : List Int) (x : Int) :
+    rkOf r x = (if r.foldl min (r.headD 0) > 0 then 1 else 0) + ((r.eraseDups.filter (· < x)).length : Int) := rfl
+
+/-- what `ndint_compress` returns for the selection methods and for 'rank', column by column (axis 0) -/
+theorem compress0_selection (m : Mat) :
+    compress0 "first" m = some (((List.range (ncols m)).map (col m)).map firstNZ) ∧
+    compress0 "last" m = some (((List.range (ncols m)).map (col m)).map (fun c => match lastNZ c with | some (_, v) => v | none => 0)) ∧
+    compress0 "min" m = some (((List.range (ncols m)).map (col m)).map minNZ) ∧
+    compress0 "max" m = some (((List.range (ncols m)).map (col m)).map lmax) ∧
+    compress0 "rank" m = some (ranking (prio2d m)) := ⟨rfl, rfl, rfl, rfl, rfl⟩
+
+end selection
+
+example : firstNZ [0, 3, 0, -2] = 3 ∧ lastNZ [0, 3, 0, -2, 0] = some (3, -2) ∧ minNZ [0, 3, 0, -2] = -2 ∧ lmax [0, 3, 0, -2] = 3 ∧
+    ranking [5, -1, 5, 0] = [2, 0, 2, 1] ∧ ranking [4, 2, 4] = [2, 1, 2] := by decide
+
 /-- non-vacuity of the key form: an empty level between two used ones (the witness of seeded change C13-a) -/
 example : shadowSpec [[1, 2, 0], [0, 0, 0], [0, 0, 2]] = [1, 2, 4] ∧
     shadowSpec [[1, -2, 3, 0], [0, 5, -5, 0], [2, 0, 0, 0]] = [3, 1, -1, 0] ∧
